@@ -31,6 +31,11 @@ impl View for BigInt {
 pub broadcast axiom fn axiom_biguint_ext(a: BigUint, b: BigUint)
     ensures #[trigger] a@ == #[trigger] b@ ==> a == b;
 
+// Every natural number is the value of some BigUint (spec-level constructor; used only in ghost code).
+pub uninterp spec fn biguint_of(n: nat) -> BigUint;
+pub broadcast axiom fn axiom_biguint_of(n: nat)
+    ensures (#[trigger] biguint_of(n))@ == n;
+
 pub broadcast axiom fn axiom_bigint_ext(a: BigInt, b: BigInt)
     ensures #[trigger] a@ == #[trigger] b@ ==> a == b;
 
